@@ -57,6 +57,7 @@ func runOne(t *testing.T, c *Case, work, sched *choice.Source, out *wproto.Out, 
 	out.Count("preemptions", int64(st.Preempt))
 	out.Count("lock_waits", int64(st.LockWaits))
 	out.Count("auto_yield_decisions", int64(st.AutoYields))
+	out.Count("atomic_site_decisions", int64(st.AtomicYields))
 	if AutoYield {
 		out.Counters["max_autoyield_build"] = 1
 	}
